@@ -418,6 +418,12 @@ Proof.
   destruct l as [|x l]; [destruct b; reflexivity|]. cbn. f_equal. apply IH.
 Qed.
 
+Lemma fuel_enough_nat (n batch : nat) : (1 <= batch)%nat -> (n <= S (n / batch) * batch)%nat.
+Proof.
+  intros Hb. pose proof (Nat.div_mod n batch ltac:(lia)) as H. pose proof (Nat.mod_upper_bound n batch ltac:(lia)) as H2.
+  rewrite (Nat.mul_comm batch) in H. cbn [Nat.mul]. lia.
+Qed.
+
 Lemma contents_cons p W : contents (p :: W) = content_of p ++ contents W.
 Proof. reflexivity. Qed.
 
@@ -512,12 +518,6 @@ Section Walk.
     rewrite Hc. cbn [skipn]. replace (n - 0)%nat with n by lia. unfold n. rewrite firstn_all. reflexivity.
   Qed.
 
-  (* an explicit sufficient fuel *)
-  Lemma fuel_enough : (n <= S (n / batch) * batch)%nat.
-  Proof.
-    pose proof (Nat.div_mod n batch ltac:(lia)) as H. pose proof (Nat.mod_upper_bound n batch ltac:(lia)) as H2.
-    rewrite (Nat.mul_comm batch) in H. cbn [Nat.mul]. lia.
-  Qed.
 End Walk.
 
 (* every page is the declarative page *)
@@ -610,7 +610,7 @@ Theorem valid_walk_complete hlt s batch fuel : Valid s -> roots_unique s -> (1 <
 Proof.
   intros HV Hu Hb. destruct (valid_inv s HV) as (tip & t & HI & Ht). exists tip. split; [exact HI|]. split.
   - intros Hf. apply (walk_complete hlt s tip t HI Ht Hu batch Hb fuel Hf).
-  - apply fuel_enough. exact Hb.
+  - apply fuel_enough_nat. exact Hb.
 Qed.
 
 (* the listing IS the set of LONGEST_CHAIN rows, ascending, heights 0..tip *)
@@ -714,7 +714,7 @@ Theorem valid_walk_terminates hlt s batch : Valid s -> roots_unique s -> (1 <= b
 Proof.
   intros HV Hu Hb. destruct (valid_inv s HV) as (tip & t & HI & Ht). exists tip. split; [exact HI|].
   intros n fuel Hfuel.
-  pose proof (fuel_enough s tip batch Hb) as Hen. fold n in Hen.
+  pose proof (fuel_enough_nat (length (asc_chain s tip)) batch Hb) as Hen. fold n in Hen.
   destruct (walk_complete hlt s tip t HI Ht Hu batch Hb (S (n / batch)) Hen) as (_ & _ & _ & _ & Hl & Hk).
   (* more fuel does not change a walk that has ended *)
   assert (Hmono: forall f key W, walk_from f hlt s batch key = W -> key_of (last W PErrNoTip) = None -> W <> [] ->
@@ -817,7 +817,7 @@ Theorem structural_walk_terminates hlt s batch : Structural s -> roots_unique s 
     key_of (last (walk_pages (S (n / batch)) hlt s batch) PErrNoTip) = None.
 Proof.
   intros HV Hu Hb. destruct (structural_inv s HV) as (tip & t & HI & Ht). exists tip. split; [exact HI|].
-  intros n. pose proof (fuel_enough s tip batch Hb) as Hen. fold n in Hen. split; [exact Hen|].
+  intros n. pose proof (fuel_enough_nat (length (asc_chain s tip)) batch Hb) as Hen. fold n in Hen. split; [exact Hen|].
   destruct (walk_complete hlt s tip t HI Ht Hu batch Hb (S (n / batch)) Hen) as (_ & _ & _ & _ & Hl & Hk). auto.
 Qed.
 
